@@ -281,6 +281,11 @@ func runC18(c *fw.Ctx) {
 	c.Bound("ops", c18Ops)
 	c.SetRule("all well-formed histories up to depth over two loose-object writers, two pack writers, SetEncodedObject and cache-filling lookups (Has(absent), Iter, ObjectPacks, Prefix) on a fresh real filesystem storage per history (no state merging: every history is replayed), x {ExclusiveAccess} x {UseInMemoryIdx}; after every history all lookup flavours (has, size, get any/typed with content, type iteration, prefix search) for every object must agree with the set of objects whose write has returned successfully; objects with an open writer are unconstrained; plus, under the controlled scheduler, a PackfileWriter write+close on the instance interleaved at every synchronisation/filesystem point with other threads' first lookups (preemption bound 1/2): the object must be visible to every lookup starting after the write returned; distinct = distinct (configuration, observation) pairs")
 	c.Assume("filesystem = mcfs; single instance, sequential calls")
+	// interleaved variant first (it has a deadline of its own, so the sequential histories cannot starve it):
+	// a pack write on the instance racing with the instance's first index load (every schedule within the
+	// preemption bound, see C23's engine); the written object must be visible to every lookup that starts
+	// after the write returned
+	c23Run(c, "pack(same instance)")
 	u := c18Universe()
 	base := mcfs.NewWorld()
 	{ // initial repository with one loose object
@@ -327,12 +332,17 @@ func runC18(c *fw.Ctx) {
 			}
 		}
 	}
+	newPerHistory := c.Pick(1, 0) // quick: at most one probe/reindex/soft-close per history; thorough: no limit
+	c.Bound("new_ops_per_history(0=unlimited)", newPerHistory)
 	type c18Cfg struct{ excl, mem, initPack, foreignCache bool }
-	cfgList := []c18Cfg{{false, false, false, false}, {false, true, false, false}, {true, false, false, false}, {true, true, false, false},
-		{false, false, true, true}, {true, false, true, true}}
+	cfgList := []c18Cfg{{false, false, false, false}, {true, false, false, false}, {false, false, true, true}, {true, true, false, false},
+		{false, true, false, false}, {true, false, true, true}}
 	c.Bound("configurations", "ExclusiveAccess x UseInMemoryIdx on a repository without packs; ExclusiveAccess x {lazy idx} on a repository with an initial pack and an object cache shared with (and warmed by) an instance of a foreign repository that holds every object")
 	total := histx.Result{}
-	{
+	// two passes: all configurations to depth-1 first, then all to the full depth, so that a deadline cuts
+	// the deepest level of the last configurations rather than whole configurations
+	c.Bound("passes", []int{depth - 1, depth})
+	for _, passDepth := range []int{depth - 1, depth} {
 		for _, cf := range cfgList {
 			excl, mem := cf.excl, cf.mem
 			cfg := fmt.Sprintf("ExclusiveAccess=%v UseInMemoryIdx=%v", excl, mem)
@@ -341,7 +351,7 @@ func runC18(c *fw.Ctx) {
 			}
 			cf := cf
 			sp := histx.Spec{
-				Name: "C18/" + cfg, OpNames: c18Ops, Depth: depth, NoDedup: true,
+				Name: "C18/" + cfg, OpNames: c18Ops, Depth: passDepth, NoDedup: true,
 				New: func() histx.Sys {
 					w := base.Clone()
 					model := map[string]bool{"init": true}
@@ -384,6 +394,19 @@ func runC18(c *fw.Ctx) {
 						opened := count("OpenLoose"+arg) + count("OpenPack"+arg)
 						return opened == 1 && count(name) == 0
 					}
+					if isNew := func(n string) bool {
+						return strings.HasPrefix(n, "Probe") || n == "Reindex" || n == "CloseIdle"
+					}; isNew(name) && newPerHistory > 0 {
+						n := 0
+						for _, h := range hist {
+							if isNew(c18Ops[h]) {
+								n++
+							}
+						}
+						if n >= newPerHistory {
+							return false
+						}
+					}
 					if strings.HasPrefix(name, "Probe") {
 						// only while the object is not yet written (afterwards the final observation looks it up anyway)
 						arg := name[len("Probe"):]
@@ -399,6 +422,9 @@ func runC18(c *fw.Ctx) {
 				},
 			}
 			res := histx.Run(c, sp)
+			if passDepth != depth {
+				continue
+			}
 			total.States += res.States
 			total.Transitions += res.Transitions
 			if !res.Complete {
@@ -409,10 +435,6 @@ func runC18(c *fw.Ctx) {
 	}
 	c.States(total.States)
 	c.Transitions(total.Transitions)
-	// interleaved variant: a pack write on the instance racing with the instance's first index load
-	// (every schedule within the preemption bound, see C23's engine); the written object must be
-	// visible to every lookup that starts after the write returned
-	c23Run(c, "pack(same instance)")
 }
 
 // c18Shape: which lookup flavours disagree, for which kind of object, after which kind of op
